@@ -17,7 +17,7 @@ RULE = ('fault enumeration over valid transcripts T1 minimal, T2 host-key probes
         'DEBUG/IGNORE interleavings, 0-5 pre-banner lines, 1-byte segmentation and two-segment splits, seeded random byte mutations.  Each case is one real audit with -t 1 under the socket monitor.  Oracle: status in {0,1,2,3} and no traceback; '
         'every blocking receive ran under the configured finite timeout, timeouts <= 4 x connections, CPU <= 5 s + 0.5 s x connections; if the first connection carried a valid banner and a strictly decodable KEXINIT the report is complete '
         '(names equal the KEXINIT), otherwise status 1 and no algorithm lines.  Non-trivial: the fault was applied (peer log) and the monitor saw >= 1 receive; distinct = distinct (transcript, connection, message, operator, parameters)')
-REQUIRED = {'faults_applied': 300, 'recv_events': 2000, 'expected_report': 100, 'expected_error': 100, 'stall_cases': 10, 'probe_phase_faults': 100}
+REQUIRED = {'rate_check_runs': 5, 'faults_applied': 300, 'recv_events': 2000, 'expected_report': 100, 'expected_error': 100, 'stall_cases': 10, 'probe_phase_faults': 100}
 ASSUMPTIONS = ['"terminates" is decided as bounded progress on logical measures (timeouts in force, number of timed-out receives, CPU), never on wall-clock; a watchdog expiry without a deterministic hang signature is inconclusive',
                'well-formed first connection = identification line ending in LF, then zero or more well-framed DEBUG/IGNORE packets, then a well-framed packet of type 20 that the strict decoder accepts (exact trailer)',
                'moduli and keys in generated replies are at most 16384 bits']
@@ -74,9 +74,16 @@ def messages(name):
     return out
 
 
+RATE_BEHAVIOURS = ['close', 'reset', 'reset-after-banner', 'silent', 'garbage', 'stop-listening', 'exceeded']
+
+
 def cases(tier, seed):
     rng = random.Random(seed * 43 + 9)
     cs = []
+    # the connection-rate check of a standard audit (everything else here runs with it skipped): the handshake and the probes are fine, the short-lived connections that follow are closed, reset, refused, ignored ...
+    for beh in RATE_BEHAVIOURS:
+        for rep_ in range(1 if tier == 'quick' else 4):
+            cs.append({'T': 'T7', 'op': 'rate', 'beh': beh, 'after': [0, 1, 3, 10][rep_]})
     for T in ('T1', 'T2', 'T3', 'T4', 'T5', 'T6'):
         cs.append({'T': T, 'op': 'none'})
         msgs = messages(T)
@@ -296,7 +303,61 @@ def build(c):
     return s
 
 
+def run_rate(c):
+    """Well-formed handshake and host-key probe, then the connections of the rate check misbehave.  Termination on logical measures (CPU), documented status, complete report."""
+    import threading
+    import time
+    k = audit.sym_kex(['curve25519-sha256', 'diffie-hellman-group14-sha256'], ['ssh-ed25519'], ['aes128-ctr'], ['hmac-sha2-256'])
+    script = {'banner': 'SSH-2.0-OpenSSH_9.1', 'kex': k, 'hostkeys': {'ssh-ed25519': {'type': 'ed25519'}}, 'gex': None, 'linger': 4, 'finish_wait': 0.5}
+    sel = {'ge': 2 + c.get('after', 0)}   # connection 0: handshake, 1: host-key probe, 2..: rate check
+    beh = c['beh']
+    ops = {'close': [{'op': 'close_before'}], 'reset': [{'op': 'reset_before'}], 'reset-after-banner': [{'op': 'then_reset'}], 'silent': [{'op': 'stall_before'}],
+           'garbage': [{'op': 'random', 'seed': 4, 'len': 40}, {'op': 'then_close'}], 'exceeded': [{'op': 'replace', 'hex': b'Exceeded MaxStartups\r\n'.hex()}, {'op': 'then_close'}], 'stop-listening': []}[beh]
+    script['faults'] = [dict(o, conn=sel, at='banner') for o in ops]
+    pr = peermod.ServerPeer(script)
+    if beh == 'stop-listening':
+        def stopper():
+            end = time.monotonic() + 30
+            while time.monotonic() < end and len(pr.conns) < sel['ge']:
+                time.sleep(0.002)
+            while time.monotonic() < end and pr.open_conns():
+                time.sleep(0.002)
+            pr.stop_listening()
+        threading.Thread(target=stopper, daemon=True).start()
+    try:
+        r = runner.run_cli(['-n', '-t', '1', pr.target()], monitors=['sockets', 'calls'], timeout=45)
+    finally:
+        pr.stop()
+    viol, counters = [], {}
+    nconn = max(1, len(r.mon('connect')))
+    entered = any(e['k'] == 'rate-test-enter' for e in (r.monitor or []))
+    if r.cpu > 5 + 0.5 * nconn:
+        viol.append(_v('C09/cpu-budget:rate-check:' + beh, 'CPU time exceeds 5 s + 0.5 s per connection', cpu=r.cpu, connections=nconn))
+    if r.timed_out:
+        if not viol:
+            return {'verdict': 'inconclusive', 'why': 'watchdog fired without a deterministic hang signature', 'case': c}
+        viol.append(_v('C09/hang:rate-check:' + beh, 'audit did not terminate before the watchdog (busy: the CPU budget is exceeded as well)', wall=r.wall, cpu=r.cpu))
+        return {'violations': viol, 'counters': counters, 'nontrivial': True}
+    if not entered:
+        return {'verdict': 'inconclusive', 'why': 'rate check not reached: status %s' % r.status}
+    counters['rate_check_runs'] = 1
+    counters['faults_applied'] = 1 if (pr.count('fault') > 0 or beh == 'stop-listening') else 0
+    counters['recv_events'] = len(r.mon('recv'))
+    txt = r.out + r.err
+    rep = report.parse_text(r.out)
+    if r.status not in (0, 1, 2, 3):
+        frames = re.findall(r'File "[^"]*/ssh_audit/(\w+)\.py", line \d+, in (\w+)', txt)
+        viol.append(_v('C09/uncaught:rate-check@%s' % ('%s.%s' % frames[-1] if frames else '?'), 'the audit ended through an uncaught exception / the internal error status', status=r.status, tail=txt[-500:]))
+    elif r.status == 1 or not rep.has_alg_lines() or {cat: rep.names(cat) for cat in ('kex', 'key', 'enc', 'mac')} != {'kex': k['kex'], 'key': k['key'], 'enc': k['enc_sc'], 'mac': k['mac_sc']}:
+        viol.append(_v('C09/no-report-for-wellformed-handshake:rate-check:' + beh, 'handshake and probes were well-formed, only the rate-check connections misbehaved, but the report is missing or incomplete', status=r.status, tail=r.out[-300:]))
+    else:
+        counters['expected_report'] = 1
+    return {'violations': viol, 'counters': counters, 'nontrivial': True, 'sample': {'case': c, 'status': r.status, 'connections': nconn, 'cpu': round(r.cpu, 2)}, 'sample_kind': 'T7' + beh}
+
+
 def run_case(c):
+    if c['op'] == 'rate':
+        return run_rate(c)
     s = build(c)
     T = c['T']
     mon = ['sockets']
